@@ -114,6 +114,9 @@ def probes(inputs, n=2):
             uh = contracts.uf_point_assignment(k, ih)
             return None if uh is None else ih + uh
         out.append(mk)
+    # probes ON the path (inputs from a model of the linear part of the path condition)
+    out.append(lambda: contracts.pc_point_probe(inputs, 0))
+    out.append(lambda: contracts.pc_point_probe(inputs, 1, uf_from_model=True))
     return out
 
 
